@@ -93,11 +93,16 @@ impl<T> ChannelSlots<T> {
         // handed out from within this function, so keep looking.
         while self.next_channel_id <= u32::from(self.channel_max) {
             let channel_id = self.next_channel_id as u16;
-            self.next_channel_id += 1;
             match self.slots.entry(channel_id) {
-                Entry::Occupied(_) => continue,
+                Entry::Occupied(_) => {
+                    self.next_channel_id += 1;
+                    continue;
+                }
                 Entry::Vacant(entry) => {
+                    // only consume the id once the entry exists, so a failure
+                    // here does not lose it
                     let (t, u) = make_entry(channel_id)?;
+                    self.next_channel_id += 1;
                     entry.insert(t);
                     return Ok(u);
                 }
@@ -111,11 +116,17 @@ impl<T> ChannelSlots<T> {
             match self.slots.entry(channel_id) {
                 // a freed id may have been reopened explicitly in the meantime
                 Entry::Occupied(_) => continue,
-                Entry::Vacant(entry) => {
-                    let (t, u) = make_entry(channel_id)?;
-                    entry.insert(t);
-                    return Ok(u);
-                }
+                Entry::Vacant(entry) => match make_entry(channel_id) {
+                    Ok((t, u)) => {
+                        entry.insert(t);
+                        return Ok(u);
+                    }
+                    Err(err) => {
+                        // still free - keep it available
+                        self.freed_channel_ids.insert(channel_id);
+                        return Err(err);
+                    }
+                },
             }
         }
     }
